@@ -16,3 +16,22 @@ package tagstree
 //@     assert [matcher-is-fully-anchored] uf("fullyAnchored", bool, arg0, pattern) && samebase(arg1, tagRawValue) && len(arg1) == len(tagRawValue)
 //@   ensures [accept-iff-match-agrees-with-operator] implies(result1 == nil, result0 == ((matched && tagOperator == sutils.Regex) || (!matched && tagOperator == sutils.NegRegex)))
 //@ end
+
+// C19, query side of the tags trees: the file of a tag key is directory + key,
+// and the key comes from the query (label matcher, OpenTSDB tag filter).  A path
+// is built from a key only after it passed the writer's validator
+// (wmetrics.IsValidTagKey, string-level meaning ASSUMED there); the directory
+// is the one recorded for the segment by the server.
+//@ func (*AllTagTreeReaders).tagTreeFileExists
+//@   props C19
+//@   requires attr != nil
+//@   pure
+//@   site call os.Stat #1:
+//@     assert [probed-only-for-a-validated-key] uf("safeName", bool, tagKey)
+//@ end
+//@ func (*AllTagTreeReaders).initTagsTreeReader
+//@   props C19
+//@   requires attr != nil
+//@   site call os.OpenFile #1:
+//@     assert [opened-only-for-a-validated-key] uf("safeName", bool, tagKey) && (arg1 & (os.O_WRONLY | os.O_RDWR | os.O_CREATE | os.O_TRUNC)) == 0
+//@ end
